@@ -213,6 +213,9 @@ func runShard(p *Property, tier string, seed int64, shard, of, from, only, subFr
 			mu.Unlock()
 		}
 		c.emit(Event{T: "begin"})
+		if p.Race {
+			fmt.Fprintf(os.Stderr, "\nVERIF-CASE-BEGIN %d\n", i)
+		}
 		mu.Lock()
 		active, caseStartCPU, caseStartWall = true, cpuSeconds(), time.Now()
 		mu.Unlock()
@@ -416,11 +419,23 @@ func drive(p *Property, tier string, seed int64, replayPath string) int {
 				ef, _ := os.Create(errPath)
 				of, _ := os.Create(stdoutPath)
 				cmd.Stderr, cmd.Stdout = ef, of
-				cmd.Env = append(os.Environ(), "GOTRACEBACK=all", "GORACE=halt_on_error=0")
+				cmd.Env = append(os.Environ(), "GOTRACEBACK=all", "GORACE=halt_on_error=0 exitcode=0")
 				runErr := cmd.Run()
 				ef.Close()
 				of.Close()
 				last, open := a.consume(outPath)
+				if p.Race {
+					if eb, rerr := os.ReadFile(errPath); rerr == nil {
+						a.mu.Lock()
+						a.counters["race_detector:shard_processes_run_under_-race"]++
+						a.counters["race_detector:reports"] += int64(len(parseRaceReports(string(eb))))
+						for _, rr := range parseRaceReports(string(eb)) {
+							w, _ := json.Marshal(map[string]any{"report": tail(rr.text, 6000)})
+							a.addViol("race:"+rr.key, rr.caseIndex, nil, w)
+						}
+						a.mu.Unlock()
+					}
+				}
 				if runErr == nil {
 					return
 				}
@@ -644,4 +659,59 @@ func trunc(s string, n int) string {
 		return s
 	}
 	return s[:n] + "…"
+}
+
+type raceReport struct {
+	key       string
+	caseIndex int
+	text      string
+}
+
+// parseRaceReports extracts the race detector's reports from a shard's stderr. The key of a
+// report is the pair of the first library frames of its two access stacks.
+func parseRaceReports(stderr string) []raceReport {
+	var out []raceReport
+	curCase := -1
+	lines := strings.Split(stderr, "\n")
+	for i := 0; i < len(lines); i++ {
+		l := lines[i]
+		if strings.HasPrefix(l, "VERIF-CASE-BEGIN ") {
+			if n, err := strconv.Atoi(strings.TrimSpace(strings.TrimPrefix(l, "VERIF-CASE-BEGIN "))); err == nil {
+				curCase = n
+			}
+			continue
+		}
+		if !strings.HasPrefix(l, "WARNING: DATA RACE") {
+			continue
+		}
+		j := i + 1
+		for j < len(lines) && !strings.HasPrefix(lines[j], "==================") {
+			j++
+		}
+		block := lines[i:j]
+		// split into paragraphs; the first two describe the conflicting accesses
+		var stacks []string
+		var cur []string
+		for _, bl := range block[1:] {
+			if strings.TrimSpace(bl) == "" {
+				if len(cur) > 0 {
+					stacks = append(stacks, strings.Join(cur, "\n"))
+					cur = nil
+				}
+				continue
+			}
+			cur = append(cur, strings.TrimSpace(bl))
+		}
+		if len(cur) > 0 {
+			stacks = append(stacks, strings.Join(cur, "\n"))
+		}
+		var sites []string
+		for k := 0; k < len(stacks) && k < 2; k++ {
+			sites = append(sites, SiteFromStack(stacks[k]))
+		}
+		sort.Strings(sites)
+		out = append(out, raceReport{key: strings.Join(sites, "|"), caseIndex: curCase, text: strings.Join(block, "\n")})
+		i = j
+	}
+	return out
 }
